@@ -318,16 +318,22 @@ def run(ctx):
         for line, qs in exhaustive_small(ctx, 5):
             cases.append((line, qs, {}, "exhaustive"))
     lines = [c[0] for c in cases]
-    rc1, impl = ctx.run_sharded(qt, lines)
-    rc2, model = ctx.run_sharded(drv, lines, args=["--cfg", MODEL_CFG])
+    impl = run_resilient(ctx, qt, lines)
+    rc2, model = ctx.run_sharded(drv, lines, args=["--cfg", MODEL_CFG], timeout=1500)
     # ------------------------------------------------------------------ correspondence
     disagreements = 0
     dis_cases = []
+    nonterminating = []     # real code overflowed its stack AND the model ran out of fuel on the same case
     for i, (line, qs, feat, prof) in enumerate(cases):
-        if impl[i] != model[i]:
+        if impl[i] == "(crash)" and ("(fuel)" in model[i] or model[i] == "(stack-overflow)"):
+            nonterminating.append(i)
+        elif impl[i] != model[i]:
             disagreements += 1
             if len(dis_cases) < 5:
                 dis_cases.append(i)
+    for i in nonterminating[:3]:
+        ctx.violation({"kind": "impl-violation", "statement": "check_type_relation does not terminate (stack overflow, process abort) on this type graph; the model runs out of fuel on the same queries",
+                       "case": cases[i][0], "model_output": model[i], "profile": cases[i][3]}, finding_key=NONTERM_KEY)
     # ------------------------------------------------------------------ semantic oracle on the REAL answers
     olines, ometa = [], []
     pairs_checked = triples_checked = 0
@@ -435,6 +441,7 @@ def run(ctx):
         "oracle_failures_matching_known_findings": known_hits, "oracle_failures_unmatched": unmatched,
         "law_failures_transitivity": len(law_failures),
         "oracle_failures_outside_domain": len(failures) - len(in_dom), "oracle_checks_skipped_outside_closedb": outside_domain,
+        "real_code_stack_overflows_matched_by_model_fuel_exhaustion": len(nonterminating),
         "traces_validated_against_impl": len(cases) - disagreements, "disagreements_checked": disagreements,
         "samples": [c[0] for c in cases[ncorpus:ncorpus + 3]] + [{"case": cases[-1][0], "impl": impl[-1], "model": model[-1]}],
         "model_variant": MODEL_CFG, "exhaustive": ctx.tier == "thorough",
@@ -443,6 +450,37 @@ def run(ctx):
         ctx.violation({"kind": "theorem-broken", "theorem": getattr(ctx, "broken_theorem", "?"),
                        "searched": "%d graphs, %d oracle checks on the real answers, %d in-domain failures" % (len(cases), sum(len(m[2]) for m in ometa), len(in_dom))},
                       no_input=(len(in_dom) == 0))
+
+
+# provisional key (no id allocated): the Callable arm of check_type_relation records no coinductive
+# assumption, so recursive callable types can recurse until the stack overflows
+NONTERM_KEY = "C09-callable-nontermination"
+
+
+def run_resilient(ctx, exe, lines, args=()):
+    """run_sharded for the harness, surviving a process abort (stack overflow is not a catchable
+    panic): the line the process died on yields `(crash)` and the rest of the shard is re-run."""
+    import concurrent.futures as cf
+    from vplib.common import NCPU
+
+    def run_chunk(chunk):
+        out = []
+        while len(out) < len(chunk):
+            rc, o = ctx.run_bin(exe, chunk[len(out):], args, 1500)
+            good = [l for l in o if l.startswith("(ids")]
+            out += good[:len(chunk) - len(out)]
+            if len(out) < len(chunk) and (rc != 0 or not good):
+                out.append("(crash)")
+            elif len(out) < len(chunk) and rc == 0:
+                out += ["(missing-output)"] * (len(chunk) - len(out))
+        return out
+
+    shards = min(NCPU, max(1, len(lines) // 50))
+    size = (len(lines) + shards - 1) // shards
+    chunks = [lines[i:i + size] for i in range(0, len(lines), size)]
+    with cf.ThreadPoolExecutor(max_workers=shards) as ex:
+        res = list(ex.map(run_chunk, chunks))
+    return [x for r in res for x in r]
 
 
 STATEMENTS = {
